@@ -1,4 +1,423 @@
-/-! native driver `C19` (stub; replaced by the area's real driver) -/
-def main (_args : List String) : IO UInt32 := do
-  IO.println "stub"
+import PPLV.Watchdog.Model
+
+/-! `pplv_c19`: replays a C19 journal (written by `harness/c19_watchdog.cc`) on the model of
+`PPLV/Watchdog/Model.lean`, compares the observable trace (handler firings with their times,
+timer system calls with their values, exceptions) with the one of the real library, and judges
+the clauses of C19 on the REAL trace.  One verdict line per case:
+
+    ok <case>
+    MISMATCH <case> trace <first difference>
+    MISMATCH <case> <clause> <detail> tags=<t1,t2,…>
+
+`--trace` also prints the model's event log of every case (`# …` lines). -/
+open PPLV.Watchdog
+
+def tokInt (s : String) : Int := s.toInt?.getD 0
+def tokNat (s : String) : Nat := s.toNat?.getD 0
+
+structure Fired where
+  id : Nat
+  t : Int
+  crit : Int        -- time passed inside public operations so far
+  defer : Nat       -- deferred signals so far
+  eqT : Bool        -- the two variants of `operator==` have disagreed in the current clock epoch
+  defT : Bool       -- a signal has been deferred by `reschedule()` in the current clock epoch
+deriving Inhabited
+
+structure Birth where
+  id : Nat
+  tCall : Int
+  cs : Int
+  crit : Int
+  defer : Nat
+  tRet : Option Int := none      -- constructor returned normally at
+deriving Inhabited
+
+structure Death where
+  id : Nat
+  tCall : Int
+  crit : Int
+  defer : Nat
+  eqT : Bool
+  defT : Bool
+  returned : Bool := false
+deriving Inhabited
+
+structure Case where
+  name : String := ""
+  kind : String := ""
+  active : Bool := false
+  σ : St := {}
+  steps : Array Step := #[]
+  real : Array String := #[]
+  now : Int := 0
+  inCall : Option (Bool × Nat) := none      -- (isCreate, id)
+  crit : Int := 0
+  defer : Nat := 0
+  eqT : Bool := false
+  defT : Bool := false
+  nEqHit : Nat := 0
+  births : Array Birth := #[]
+  deaths : Array Death := #[]
+  fired : Array Fired := #[]
+  bad : Array String := #[]                 -- clause failures found while reading (not-after-destroy)
+
+structure WCase where
+  name : String := ""
+  active : Bool := false
+  σ : WSt := {}
+  real : Array String := #[]
+  gW : Nat := 0                              -- unbounded weight
+  alive : Array (Nat × Nat) := #[]          -- id, unbounded threshold (constructed, not fired, not destroyed)
+  pendingCheck : Option (Array Nat) := none -- ids that must fire at the check in progress
+  firedNow : Array Nat := #[]
+  lapped : Bool := false
+  bad : Array String := #[]
+  lastCreate : Option (Nat × Nat) := none   -- id, delta
+
+structure D where
+  eqBug : Bool := true
+  trace : Bool := false
+  c : Case := {}
+  w : WCase := {}
+  nOk : Nat := 0
+  nBad : Nat := 0
+
+abbrev M := StateT D IO
+
+def stKey (σ : St) : List Ev × Time × Time × Int × PC × List Event × Bool :=
+  (σ.pending, σ.tsf, σ.ltr, σ.remaining, σ.pc, σ.log, σ.running)
+
+/-- one model step, recorded; notes whether the two variants of `operator==` disagree here -/
+def mexec (s : Step) : M Unit := modify fun d =>
+  let σt := exec true d.c.σ s
+  let σf := exec false d.c.σ s
+  let hit := stKey σt != stKey σf
+  { d with c := { d.c with σ := if d.eqBug then σt else σf, steps := d.c.steps.push s,
+                           eqT := d.c.eqT || (hit && d.eqBug), nEqHit := d.c.nEqHit + (if hit then 1 else 0) } }
+
+def isSysPc : PC → Bool
+  | .a2 .. | .b3 .. | .r3 .. | .s2 .. | .b1 .. | .r1 .. => true
+  | _ => false
+
+/-- advance the model to its next timer system call (or to the end of the operation) -/
+def toSyscall : M Unit := do
+  for _ in [0:8] do
+    let d ← get
+    if d.c.σ.pc == .idle || isSysPc d.c.σ.pc then return
+    mexec .step
+
+def finishOp : M Unit := do
+  for _ in [0:6] do mexec .step
+
+def pushReal (s : String) : M Unit := modify fun d => { d with c := { d.c with real := d.c.real.push s } }
+
+def modelObs (log : List Event) : Array String := Id.run do
+  let mut out : Array String := #[]
+  for e in log.reverse do
+    match e with
+    | .rejected id _ => out := out.push s!"rejected {id}"
+    | .threw id => out := out.push s!"threw {id}"
+    | .constructed id _ => out := out.push s!"constructed {id}"
+    | .fired id t _ _ => out := out.push s!"fired {id} {t}"
+    | .destroyed id _ => out := out.push s!"destroyed {id}"
+    | .setitimer us => out := out.push s!"set {us}"
+    | .setfail => out := out.push "setfail"
+    | .getitimer us => out := out.push s!"get {us}"
+    | .hset us => out := out.push s!"hset {us}"
+    | .internalError => out := out.push "herr"
+    | _ => pure ()
+  return out
+
+def verdict (name clause detail : String) (tags : List String) : M Unit := do
+  IO.println s!"MISMATCH {name} {clause} {detail} tags={",".intercalate tags}"
+
+def causeTags (neg eqT defT : Bool) : List String :=
+  (if neg then ["negative_csecs"] else []) ++ (if eqT then ["time_eq_ignores_microseconds"] else [])
+    ++ (if defT then ["after_deferred_signal"] else [])
+
+/-- the clauses of C19 evaluated on the real trace of one case -/
+def judge : M Unit := do
+  let d ← get
+  let c := d.c
+  let mut nbad := 0
+  -- correspondence
+  let mo := modelObs c.σ.log
+  if mo != c.real then
+    let n := min mo.size c.real.size
+    let mut k := n
+    for i in [0:n] do
+      if k == n && mo[i]! != c.real[i]! then k := i
+    let a := if k < mo.size then mo[k]! else "<end>"
+    let b := if k < c.real.size then c.real[k]! else "<end>"
+    IO.println s!"MISMATCH {c.name} trace at={k} model=[{a}] real=[{b}] tags="
+    nbad := nbad + 1
+  let neg := c.σ.badArg
+  for m in c.bad do
+    verdict c.name "not_after_destroy" m (causeTags neg false false)
+    nbad := nbad + 1
+  -- at most once
+  for i in [0:c.fired.size] do
+    for j in [0:i] do
+      if c.fired[i]!.id == c.fired[j]!.id then
+        verdict c.name "at_most_once" s!"id={c.fired[i]!.id}" (causeTags neg false false)
+        nbad := nbad + 1
+  -- never early / only live / prompt (lateness)
+  for f in c.fired do
+    match c.births.find? (·.id == f.id) with
+    | none =>
+      verdict c.name "only_live" s!"id={f.id} never created" (causeTags neg false false); nbad := nbad + 1
+    | some b =>
+      let dl := b.tCall + b.cs * 10000
+      if b.tRet.isNone then
+        verdict c.name "only_live" s!"id={f.id} fired at {f.t} but its constructor threw" (causeTags neg false false)
+        nbad := nbad + 1
+      else if f.t < dl then
+        verdict c.name "never_early" s!"id={f.id} fired={f.t} deadline={dl} early_by={dl - f.t}" (causeTags neg f.eqT f.defT)
+        nbad := nbad + 1
+      else
+        let dlr := (b.tRet.getD b.tCall) + b.cs * 10000
+        let slack := (f.crit - b.crit) + 10000 * ((f.defer - b.defer : Nat) : Int)
+        if f.t > dlr + slack then
+          verdict c.name "prompt" s!"id={f.id} fired={f.t} deadline={dlr} slack={slack} late_by={f.t - dlr}" (causeTags neg f.eqT f.defT)
+          nbad := nbad + 1
+  -- prompt: missed
+  for b in c.births do
+    if b.tRet.isSome && !(c.fired.any (·.id == b.id)) then
+      let dlr := (b.tRet.getD b.tCall) + b.cs * 10000
+      match c.deaths.find? (·.id == b.id) with
+      | some dd =>
+        let slack := (dd.crit - b.crit) + 10000 * ((dd.defer - b.defer : Nat) : Int)
+        if dd.tCall > dlr + slack then
+          verdict c.name "prompt" s!"id={b.id} not fired: deadline={dlr} slack={slack} destroyed_at={dd.tCall}" (causeTags neg dd.eqT dd.defT)
+          nbad := nbad + 1
+      | none =>
+        let slack := (c.crit - b.crit) + 10000 * ((c.defer - b.defer : Nat) : Int)
+        if c.now > dlr + slack then
+          verdict c.name "prompt" s!"id={b.id} not fired: deadline={dlr} slack={slack} end={c.now}" (causeTags neg c.eqT c.defT)
+          nbad := nbad + 1
+  -- order of deadlines
+  for i in [0:c.fired.size] do
+    for j in [0:i] do
+      let fi := c.fired[i]!
+      let fj := c.fired[j]!
+      match c.births.find? (·.id == fi.id), c.births.find? (·.id == fj.id) with
+      | some bi, some bj =>
+        let di := bi.tCall + bi.cs * 10000
+        let dj := bj.tCall + bj.cs * 10000
+        let slack := c.crit + 10000 * (c.defer : Int)
+        -- j fired before i: its deadline must not be later
+        if fj.t < fi.t && dj > di + slack then
+          verdict c.name "order" s!"id={fj.id} (deadline {dj}) fired before id={fi.id} (deadline {di})" (causeTags neg (fi.eqT || fj.eqT) (fi.defT || fj.defT))
+          nbad := nbad + 1
+      | _, _ => pure ()
+  if d.trace then
+    for e in c.σ.log.reverse do IO.println s!"# {repr e}"
+  if nbad == 0 then
+    IO.println s!"ok {c.name} eqhits={c.nEqHit} defer={c.defer} crit={c.crit} fired={c.fired.size}"
+    modify fun d => { d with nOk := d.nOk + 1 }
+  else modify fun d => { d with nBad := d.nBad + 1 }
+
+def wModelObs (log : List WEvent) : Array String := Id.run do
+  let mut out : Array String := #[]
+  for e in log.reverse do
+    match e with
+    | .rejected id => out := out.push s!"rejected {id}"
+    | .fired id _ _ _ => out := out.push s!"wfired {id}"
+    | _ => pure ()
+  return out
+
+def wJudge : M Unit := do
+  let d ← get
+  let w := d.w
+  let mut nbad := 0
+  let mo := wModelObs w.σ.log
+  if mo != w.real then
+    IO.println s!"MISMATCH {w.name} trace model={mo} real={w.real}"
+    nbad := nbad + 1
+  for m in w.bad do
+    IO.println s!"MISMATCH {w.name} {m}"
+    nbad := nbad + 1
+  if d.trace then
+    for e in w.σ.log.reverse do IO.println s!"# {repr e}"
+  if nbad == 0 then
+    IO.println s!"ok {w.name}{if w.lapped then " lapped" else ""}"
+    modify fun d => { d with nOk := d.nOk + 1 }
+  else modify fun d => { d with nBad := d.nBad + 1 }
+
+def wWindowed (gW : Nat) (alive : Array (Nat × Nat)) (extra : List Nat) : Bool :=
+  let xs := gW :: (extra ++ alive.toList.map (·.2))
+  xs.all fun x => xs.all fun y => decide (x < y + H63)
+
+/-- close the check in progress: exactly the watchers whose threshold is reached must have fired -/
+def wCloseCheck : M Unit := modify fun d =>
+  let w := d.w
+  match w.pendingCheck with
+  | none => d
+  | some must =>
+    let fired := w.firedNow
+    let missing := must.filter (fun i => !fired.contains i)
+    let extra := fired.filter (fun i => !must.contains i)
+    let alive' := w.alive.filter (fun p => !fired.contains p.1)
+    let bad1 := missing.map fun i =>
+      let thr := ((w.alive.find? (·.1 == i)).map (·.2)).getD 0
+      let tag := if thr == w.gW then "weight_equals_threshold_exactly" else "threshold_exceeded"
+      s!"fires_iff_reached id={i} threshold={thr} weight={w.gW} not fired tags={tag}"
+    let bad2 := extra.map fun i =>
+      s!"fires_iff_reached id={i} weight={w.gW} fired below threshold tags=fired_below_threshold"
+    let bad := if w.lapped then w.bad else w.bad ++ bad1 ++ bad2
+    { d with w := { w with pendingCheck := none, firedNow := #[], alive := alive', bad := bad } }
+
+def processLine (line : String) : M Unit := do
+  let ts := line.trimAscii.toString.splitOn " "
+  match ts with
+  | ["eqbug", v] => modify fun d => { d with eqBug := v == "1" }
+  | ["case", n, kind] => modify fun d => { d with c := { name := s!"{kind}-{n}", kind := kind, active := true } }
+  | ["call", "create", id, cs] =>
+    let d ← get
+    let b : Birth := { id := tokNat id, tCall := d.c.now, cs := tokInt cs, crit := d.c.crit, defer := d.c.defer }
+    -- a creation while the clock is stopped starts a fresh epoch (time_so_far = 0, timer re-armed)
+    let fresh := !d.c.σ.running && d.c.σ.pending.isEmpty
+    modify fun d => { d with c := { d.c with
+      births := d.c.births.push b
+      inCall := some (true, tokNat id)
+      eqT := if fresh then false else d.c.eqT
+      defT := if fresh then false else d.c.defT } }
+    mexec (.create (tokNat id) (tokInt cs))
+  | ["call", "destroy", id] =>
+    let d ← get
+    let dd : Death := { id := tokNat id, tCall := d.c.now, crit := d.c.crit, defer := d.c.defer, eqT := d.c.eqT, defT := d.c.defT }
+    modify fun d => { d with c := { d.c with deaths := d.c.deaths.push dd, inCall := some (false, tokNat id) } }
+    mexec (.destroy (tokNat id))
+  | ["senter", _] => toSyscall
+  | ["sexit", "get", v] => do
+    if isSysPc (← get).c.σ.pc then mexec .step
+    pushReal s!"get {v}"
+  | ["sexit", "set", v] => do
+    if isSysPc (← get).c.σ.pc then mexec .step
+    pushReal s!"set {v}"
+  | ["sexit", "setfail"] => do
+    if isSysPc (← get).c.σ.pc then mexec .step
+    pushReal "setfail"
+  | ["tick", v] =>
+    let dt := tokInt v
+    let d ← get
+    let inCall := d.c.inCall.isSome
+    modify fun d => { d with c := { d.c with
+      now := d.c.now + dt,
+      crit := if inCall then d.c.crit + dt else d.c.crit } }
+    mexec (.tick dt)
+  | ["obs", "fired", id, t] =>
+    let d ← get
+    let c := d.c
+    let i := tokNat id
+    let f : Fired := { id := i, t := tokInt t, crit := c.crit, defer := c.defer, eqT := c.eqT, defT := c.defT }
+    let late := c.deaths.any (fun dd => dd.id == i && dd.returned)
+    let msg := s!"id={i} fired at {t} after its destructor returned"
+    modify fun d => { d with c := { d.c with
+      fired := d.c.fired.push f
+      bad := if late then d.c.bad.push msg else d.c.bad } }
+    pushReal s!"fired {id} {t}"
+  | ["obs", "hset", v] =>
+    -- a timer call of the handler while a public operation is in progress: the signal was deferred
+    let d ← get
+    if d.c.inCall.isSome then
+      modify fun d => { d with c := { d.c with
+        defer := d.c.defer + 1
+        defT := true } }
+    pushReal s!"hset {v}"
+  | ["obs", "hsetfail"] => pushReal "herr"
+  | ["ret"] =>
+    let d ← get
+    if d.c.active then
+      match d.c.inCall with
+      | some (true, id) =>
+        finishOp
+        modify fun d => { d with c := { d.c with
+          inCall := none
+          births := d.c.births.map (fun b => if b.id == id then { b with tRet := some d.c.now } else b) } }
+        pushReal s!"constructed {id}"
+      | some (false, id) =>
+        finishOp
+        modify fun d => { d with c := { d.c with
+          inCall := none
+          deaths := d.c.deaths.map (fun x => if x.id == id then { x with returned := true } else x) } }
+        pushReal s!"destroyed {id}"
+      | none => pure ()
+    else if d.w.active then
+      match d.w.lastCreate with
+      | some (id, delta) =>
+        let w := d.w
+        modify fun d => { d with w := { w with alive := w.alive.push (id, w.gW + delta), lastCreate := none } }
+      | none => wCloseCheck
+  | ["exc", cls] =>
+    let d ← get
+    if d.c.active then
+      match d.c.inCall with
+      | some (_, id) =>
+        finishOp
+        modify fun d => { d with c := { d.c with inCall := none } }
+        pushReal (if cls == "invalid_argument" then s!"rejected {id}" else if cls == "runtime_error" then s!"threw {id}" else s!"exc {cls} {id}")
+      | none => pure ()
+    else if d.w.active then
+      match d.w.lastCreate with
+      | some (id, delta) =>
+        let w := d.w
+        -- inside the comparison window a delta below 2^63 must be accepted
+        let bad := if !w.lapped && cls == "invalid_argument" && delta < H63
+          then w.bad.push s!"fires_iff_reached id={id} delta={delta} rejected as already reached tags=rejected_inside_window" else w.bad
+        modify fun d => { d with w := { w with lastCreate := none, bad := bad, real := w.real.push s!"rejected {id}" } }
+      | none =>
+        modify fun d => { d with w := { d.w with bad := d.w.bad.push s!"exception {cls}" } }
+        wCloseCheck
+  | ["end"] =>
+    let d ← get
+    if d.c.active then
+      judge
+      modify fun d => { d with c := {} }
+    else if d.w.active then
+      wJudge
+      modify fun d => { d with w := {} }
+  | "crash" :: rest =>
+    let d ← get
+    let nm := if d.c.active then d.c.name else if d.w.active then d.w.name else "?"
+    IO.println s!"MISMATCH {nm} crash {" ".intercalate rest} tags="
+    modify fun d => { d with c := {}, w := {}, nBad := d.nBad + 1 }
+  -- weight watcher
+  | ["wcase", n, w0] =>
+    let w := tokNat w0
+    modify fun d => { d with w := { name := s!"weight-{n}", active := true, σ := wExec {} (.setWeight w), gW := w } }
+  | ["wcall", "add", v] =>
+    modify fun d => { d with w := { d.w with σ := wExec d.w.σ (.add (tokNat v)), gW := d.w.gW + tokNat v } }
+  | ["wcall", "create", id, delta] =>
+    modify fun d =>
+      let w := d.w
+      let dl := tokNat delta
+      let lapped := w.lapped || !(wWindowed w.gW w.alive [w.gW + dl])
+      { d with w := { w with σ := wExec w.σ (.create (tokNat id) dl), lastCreate := some (tokNat id, dl), lapped := lapped } }
+  | ["wcall", "destroy", id] =>
+    modify fun d =>
+      let w := d.w
+      { d with w := { w with σ := wExec w.σ (.destroy (tokNat id)), alive := w.alive.filter (·.1 != tokNat id) } }
+  | ["wcall", "check"] =>
+    modify fun d =>
+      let w := d.w
+      let lapped := w.lapped || !(wWindowed w.gW w.alive [])
+      -- "reaches": unbounded weight ≥ unbounded threshold
+      let must := (w.alive.filter (fun p => p.2 ≤ w.gW)).map (·.1)
+      { d with w := { w with σ := wExec w.σ .check, pendingCheck := some must, firedNow := #[], lapped := lapped } }
+  | ["obs", "wfired", id] =>
+    modify fun d => { d with w := { d.w with firedNow := d.w.firedNow.push (tokNat id), real := d.w.real.push s!"wfired {id}" } }
+  | _ => pure ()
+
+partial def loop (h : IO.FS.Stream) : M Unit := do
+  let line ← h.getLine
+  if line.isEmpty then return ()
+  processLine line
+  loop h
+
+def main (args : List String) : IO UInt32 := do
+  let stdin ← IO.getStdin
+  let ((), st) ← (loop stdin).run { trace := args.contains "--trace" }
+  IO.println s!"summary ok={st.nOk} mismatch={st.nBad} eqbug={if st.eqBug then 1 else 0}"
   return 0
